@@ -23,7 +23,8 @@ class Defs:
     def __init__(self, body):
         self.body = body
         self.defs = {}      # local -> list of ('assign', bb, i, rv) | ('call', bb, term)
-        self.mutated = set()  # locals written through projections or mutably borrowed
+        self.mutated = set()  # locals written through projections
+        self.borrowed_mut = set()  # locals whose address is taken mutably (value at the definition is still the definition)
         for bb, blk in enumerate(body.blocks):
             for i, s in enumerate(blk["stmts"]):
                 if s["k"] == "assign":
@@ -52,11 +53,11 @@ class Defs:
     def _borrowed_mut(self, place):
         # `&mut x` / `&mut x.f` makes x's value depend on what the borrower does; `&mut *r` does not touch r
         if not place["p"] or place["p"][0] != "*":
-            self.mutated.add(place["l"])
+            self.borrowed_mut.add(place["l"])
 
-    def single(self, l):
+    def single(self, l, strict=False):
         ds = self.defs.get(l, [])
-        if len(ds) == 1 and l not in self.mutated:
+        if len(ds) == 1 and l not in self.mutated and not (strict and l in self.borrowed_mut):
             return ds[0]
         return None
 
